@@ -334,18 +334,97 @@ func genSnap(o *hx.Out, r *hx.Rand, n int) {
 		add(Cmd{K: "CreateRetentionPolicy", Idx: idx, Term: term, S: []string{"db0", "rp0"}, U: []uint64{uint64(1 + r.Intn(3))},
 			I: []int64{0, []int64{0, int64(time.Hour), int64(24 * time.Hour), int64(90 * time.Minute)}[r.Intn(4)]}, B: []bool{r.Bool()}})
 	}
+	// lists that the FSM edits in place: several subscriptions, users, policies, CQs
+	if len(d.Evs) > 0 && r.Chance(60) {
+		for k, nsub := 0, 2+r.Intn(3); k < nsub; k++ {
+			nextIdx()
+			add(Cmd{K: "CreateSubscription", Idx: idx, Term: term, S: []string{"db0", "rp0", fmt.Sprintf("s%d", k), "ALL", destPool[k%3]}})
+		}
+		for k, nu := 0, r.Intn(4); k < nu; k++ {
+			nextIdx()
+			add(Cmd{K: "CreateUser", Idx: idx, Term: term, S: []string{[]string{"alice", "bob", "root", "carol"}[k], "h1"}, B: []bool{k == 2}})
+		}
+		if r.Chance(50) {
+			nextIdx()
+			add(Cmd{K: "CreateRetentionPolicy", Idx: idx, Term: term, S: []string{"db0", "rp1"}, U: []uint64{1}, I: []int64{0, int64(24 * time.Hour)}, B: []bool{false}})
+			nextIdx()
+			add(Cmd{K: "CreateContinuousQuery", Idx: idx, Term: term, S: []string{"db0", "cq0", queryPool[0]}})
+			nextIdx()
+			add(Cmd{K: "CreateContinuousQuery", Idx: idx, Term: term, S: []string{"db0", "cq1", queryPool[2]}})
+		}
+	}
+	// a command that edits, in place, a list the value just taken also reaches
+	afterTake := func() (Cmd, bool) {
+		sd := shadow.Data()
+		c := Cmd{Idx: idx, Term: term}
+		var cands []Cmd
+		for i := range sd.Databases {
+			db := &sd.Databases[i]
+			for j := range db.RetentionPolicies {
+				rp := &db.RetentionPolicies[j]
+				for k, sub := range rp.Subscriptions {
+					if k < len(rp.Subscriptions)-1 || r.Chance(30) {
+						cands = append(cands, Cmd{K: "DropSubscription", S: []string{db.Name, rp.Name, sub.Name}})
+					}
+				}
+				cands = append(cands, Cmd{K: "CreateSubscription", S: []string{db.Name, rp.Name, fmt.Sprintf("n%d", r.Intn(4)), "ANY", destPool[r.Intn(3)]}})
+				if j < len(db.RetentionPolicies)-1 {
+					cands = append(cands, Cmd{K: "DropRetentionPolicy", S: []string{db.Name, rp.Name}})
+				}
+				for _, sg := range rp.ShardGroups {
+					if len(sg.Shards) > 0 {
+						cands = append(cands, Cmd{K: "DropShard", U: []uint64{sg.Shards[0].ID}})
+						if len(sg.Shards[0].Owners) > 0 {
+							cands = append(cands, Cmd{K: "RemoveShardOwner", U: []uint64{sg.Shards[0].ID, sg.Shards[0].Owners[0].NodeID}})
+						}
+					}
+				}
+			}
+			for k, cq := range db.ContinuousQueries {
+				if k < len(db.ContinuousQueries)-1 {
+					cands = append(cands, Cmd{K: "DropContinuousQuery", S: []string{db.Name, cq.Name}})
+				}
+			}
+			if i < len(sd.Databases)-1 {
+				cands = append(cands, Cmd{K: "DropDatabase", S: []string{db.Name}})
+			}
+		}
+		for k, u := range sd.Users {
+			if k < len(sd.Users)-1 {
+				cands = append(cands, Cmd{K: "DropUser", S: []string{u.Name}})
+			}
+			cands = append(cands, Cmd{K: "UpdateUser", S: []string{u.Name, "h9"}})
+			cands = append(cands, Cmd{K: "SetAdminPrivilege", S: []string{u.Name}, B: []bool{!u.Admin}})
+			if len(sd.Databases) > 0 {
+				cands = append(cands, Cmd{K: "SetPrivilege", S: []string{u.Name, sd.Databases[0].Name}, I: []int64{int64(1 + r.Intn(3))}})
+			}
+		}
+		if len(cands) == 0 {
+			return c, false
+		}
+		x := cands[r.Intn(len(cands))]
+		x.Idx, x.Term = idx, term
+		return x, true
+	}
 	for ncmd < n {
 		switch w := r.Intn(100); {
 		case w < 12 && ntaken < 5:
 			take()
-			// node-list mutations right after a take are what aliasing would corrupt
-			if r.Chance(50) {
+			// in-place mutations right after a take are what aliasing would corrupt
+			if r.Chance(35) {
 				nextIdx()
 				c := g.next(shadow.Data(), idx, term)
 				for tries := 0; tries < 20 && c.K != "CreateDataNode" && c.K != "UpdateDataNode" && c.K != "SetMetaNode" && c.K != "CreateMetaNode" && c.K != "DeleteDataNode"; tries++ {
 					c = g.next(shadow.Data(), idx, term)
 				}
 				add(c)
+			} else if r.Chance(70) {
+				for k := 1 + r.Intn(3); k > 0; k-- {
+					nextIdx()
+					if c, ok := afterTake(); ok {
+						add(c)
+					}
+				}
 			}
 		case w < 20:
 			persist()
